@@ -206,6 +206,15 @@ def search(ctx, deep):
     rng = ctx.rng('search')
     nprng = ctx.nprng('search')
     arrays = gen_arrays(rng, nprng, 60 * (6 if deep else 1))
+    # forced: very strong but imperfect dependence, tau = 1 - 4k/(n(n-1)) within 1e-5 .. 1e-6 of +-1 (one or two
+    # adjacent transpositions in a long monotone sequence): theta must still be the finite calibration of tau
+    for n_, k_, sign in ((700, 1, 1), (2000, 1, 1), (1500, 2, -1)):
+        u = (np.arange(n_) + 0.5) / n_
+        v = u.copy()
+        for j in range(k_):
+            a = (n_ // 3) * (j + 1)
+            v[a], v[a + 1] = v[a + 1], v[a]
+        arrays.insert(0, ('nearperfect', np.column_stack((u, v if sign > 0 else 1 - v))))
     checked = found = 0
     for kind, X in arrays:
         U, V = X[:, 0], X[:, 1]
@@ -238,6 +247,9 @@ def search(ctx, deep):
                 if not (rtau == tau):
                     bad('tau-not-kendall', [rtau, tau], 'model.tau = Kendall tau-b of the columns')
                 th = float(rtheta)
+                if not math.isfinite(th) and fam in ('clayton', 'gumbel'):
+                    # tau is strictly inside (-1,1) here: the calibration 2tau/(1-tau), 1/(1-tau) is finite
+                    bad('calibration', {'theta': th}, 'theta is the finite calibration of a tau strictly below 1')
                 if math.isfinite(th) and th != 0:
                     err = B.tau_of(fam, th) - tau
                     tol = 1e-6 if fam != 'frank' else 1e-5
